@@ -4,6 +4,7 @@ import (
 	"fmt"
 	"sort"
 	"strconv"
+	"strings"
 	"time"
 
 	"github.com/alibaba/RedisShake/pkg/simrt"
@@ -276,6 +277,12 @@ func runC14(c *core.Ctx) *core.Violation {
 				isOwnStale := (f == own+"-runid" || f == own+"-offset") && d != db
 				if isOwnStale {
 					if _, still := now[f]; still {
+						if cut && strings.Contains(lc.String(), "clear old checkpoint failed") {
+							// the injected reset hit the clearing pass: removal is impossible and the loader says so;
+							// the answer (checked above) and foreign fields (checked below) must still be right
+							c.Probe("cut_during_clear")
+							continue
+						}
 						viol = core.Violate("stale-not-removed", site, "field %q in db %d is a stale checkpoint of %q (resuming from db %d) but was not removed", f, d, own, db)
 						return
 					}
@@ -312,7 +319,7 @@ func init() {
 			"a cut connection may surface as an error or as an abort of the loader; only a wrong answer is a violation",
 		},
 		RealVsStub: "real: checkpoint.LoadCheckpoint/fetchCheckpoint/ClearCheckpoint, utils.ParseKeyspace, redigo; simulated: TCP incl. cut, target model, clock, scheduling",
-		ProbeNames: []string{"several_sources", "old_version_refused", "cut_reported_as_error"},
+		ProbeNames: []string{"several_sources", "old_version_refused", "cut_reported_as_error", "cut_during_clear"},
 		FaultNames: []string{"conn_cut", "conn_cut_during_load"},
 	})
 }
